@@ -10,6 +10,8 @@
 #include <map>
 #include <memory>
 #include <sstream>
+#include <stdexcept>
+#include <iterator>
 #include <string>
 #include <vector>
 
@@ -197,6 +199,28 @@ static Bytes corrupt(Bytes b, const std::vector<std::string>& parts)
     return b;
 }
 
+// a forward iterator over packets that throws when the k-th packet is dereferenced: an encode call that is left by an exception
+struct ThrowingIt
+{
+    using iterator_category = std::forward_iterator_tag;
+    using value_type = Packet;
+    using difference_type = std::ptrdiff_t;
+    using pointer = const Packet*;
+    using reference = const Packet&;
+    const std::vector<Packet>* v;
+    size_t i;
+    size_t k;
+    reference operator*() const
+    {
+        if (i >= k) throw std::runtime_error("source iterator failed");
+        return (*v)[i];
+    }
+    ThrowingIt& operator++() { ++i; return *this; }
+    ThrowingIt operator++(int) { auto t = *this; ++i; return t; }
+    bool operator==(const ThrowingIt& o) const { return i == o.i; }
+    bool operator!=(const ThrowingIt& o) const { return i != o.i; }
+};
+
 #include "ops_extra.inc"
 
 static std::string stepLine(State& s, const std::vector<std::string>& w)
@@ -246,6 +270,29 @@ static std::string stepLine(State& s, const std::vector<std::string>& w)
         if (w[2] == "restart" && w.size() == 3) { slot.enc.restart(); return "ok"; }
         if (w[2] == "seq" && w.size() == 3) return "seq " + std::to_string(slot.enc.getSequenceCounter());
         if (w[2] == "ids" && w.size() == 3) return "ids " + std::to_string(slot.enc.getDeviceId()) + " " + std::to_string(unsigned(slot.enc.getStreamId()));
+        if (w[2] == "encodethrow" && w.size() >= 6)
+        {
+            DataContext ctx{static_cast<size_t>(nat(w[3])), static_cast<size_t>(nat(w[4]))};
+            if (!(ctx.maxBytesPerMessage >= 25 && ctx.minBytesPerMessage <= ctx.maxBytesPerMessage)) return "bad-ctx";
+            std::vector<Packet> batch;
+            for (size_t i = 6; i < w.size(); ++i)
+            {
+                auto it = s.pkts.find(w[i]);
+                if (it == s.pkts.end() || !it->second.payload) return "bad-batch";
+                batch.push_back(it->second);
+            }
+            const size_t k = nat(w[5]);
+            if (k >= batch.size()) return "bad-batch";
+            try
+            {
+                slot.enc.encode(ThrowingIt{&batch, 0, k}, ThrowingIt{&batch, batch.size(), k}, ctx);
+                return "no-throw";
+            }
+            catch (const std::runtime_error&)
+            {
+                return "threw";
+            }
+        }
         // `encodell`: the same call on the real encoder; the driver answers it with the low-level model (EncoderLL.lean)
         if ((w[2] == "encode" || w[2] == "encodep" || w[2] == "encode1" || w[2] == "encodell" || w[2] == "encodeacc") && w.size() >= 5)
         {
